@@ -13,6 +13,11 @@ type DynamicFanOut[T any] struct {
 	closed  bool
 	mutex   sync.Mutex
 	outputs map[int64]chan T
+
+	// leaving keeps one channel per output, closed by DespawnOutput before it waits for the mutex,
+	// so the broadcast never waits for a consumer that is being removed (and may have stopped reading)
+	leavingMutex sync.Mutex
+	leaving      map[int64]chan struct{}
 }
 
 func NewDynamicFanOut[T any](input <-chan T) *DynamicFanOut[T] {
@@ -21,6 +26,7 @@ func NewDynamicFanOut[T any](input <-chan T) *DynamicFanOut[T] {
 		inputCap: cap(input),
 		outputs:  make(map[int64]chan T),
 		mutex:    sync.Mutex{},
+		leaving:  make(map[int64]chan struct{}),
 	}
 	go f.run()
 	return &f
@@ -29,8 +35,21 @@ func NewDynamicFanOut[T any](input <-chan T) *DynamicFanOut[T] {
 func (f *DynamicFanOut[T]) run() {
 	for e := range f.input {
 		f.mutex.Lock()
-		for _, o := range f.outputs {
-			o <- e
+		for id, o := range f.outputs {
+			f.leavingMutex.Lock()
+			leaving := f.leaving[id]
+			f.leavingMutex.Unlock()
+
+			select {
+			case <-leaving: // removal in progress, nothing more is delivered to this output
+				continue
+			default:
+			}
+
+			select {
+			case o <- e:
+			case <-leaving:
+			}
 		}
 		f.mutex.Unlock()
 	}
@@ -65,12 +84,25 @@ func (f *DynamicFanOut[T]) SpawnOutput() (int64, <-chan T, error) {
 	}
 
 	f.outputs[id] = newChan
+	f.leavingMutex.Lock()
+	f.leaving[id] = make(chan struct{})
+	f.leavingMutex.Unlock()
 	f.mutex.Unlock()
 	return id, newChan, nil
 }
 
 // DespawnOutput removes output channel with given ID
 func (f *DynamicFanOut[T]) DespawnOutput(id int64) error {
+	f.leavingMutex.Lock()
+	if leaving, ok := f.leaving[id]; ok {
+		select {
+		case <-leaving:
+		default:
+			close(leaving)
+		}
+	}
+	f.leavingMutex.Unlock()
+
 	f.mutex.Lock()
 	defer f.mutex.Unlock()
 
@@ -80,6 +112,9 @@ func (f *DynamicFanOut[T]) DespawnOutput(id int64) error {
 	}
 	close(c)
 	delete(f.outputs, id)
+	f.leavingMutex.Lock()
+	delete(f.leaving, id)
+	f.leavingMutex.Unlock()
 
 	return nil
 }
